@@ -297,6 +297,20 @@ pub struct XInit {
     pub statics: Vec<usize>,
 }
 
+/// an entry point definition or a `Pipeline` block (by index)
+#[derive(Clone, Copy, PartialEq, Debug)]
+pub enum Root {
+    Entry(usize),
+    Pipe(usize),
+}
+
+/// the function a stage property denotes
+#[derive(Clone, Copy, PartialEq, Debug)]
+pub enum StageFn {
+    Entry(usize),
+    Helper(usize),
+}
+
 #[derive(Clone, Debug)]
 pub struct XPipe {
     pub name: String,
@@ -1080,36 +1094,10 @@ impl Case {
             }
             s.push_str("}\n");
         };
-        if self.layout == 1 {
-            let mut done = vec![false; self.entries.len()];
-            for pipe in &self.pipes {
-                if pipe.before {
-                    emit_pipe(&mut s, pipe);
-                }
-                for k in &pipe.stages {
-                    if !done[*k] {
-                        done[*k] = true;
-                        emit_entry(&mut s, *k);
-                    }
-                }
-                if !pipe.before {
-                    emit_pipe(&mut s, pipe);
-                }
-            }
-            for k in 0..self.entries.len() {
-                if !done[k] {
-                    emit_entry(&mut s, k);
-                }
-            }
-        } else {
-            for pipe in self.pipes.iter().filter(|p| p.before) {
-                emit_pipe(&mut s, pipe);
-            }
-            for k in 0..self.entries.len() {
-                emit_entry(&mut s, k);
-            }
-            for pipe in self.pipes.iter().filter(|p| !p.before) {
-                emit_pipe(&mut s, pipe);
+        for root in self.file_order() {
+            match root {
+                Root::Entry(k) => emit_entry(&mut s, k),
+                Root::Pipe(i) => emit_pipe(&mut s, &self.pipes[i]),
             }
         }
         // late overloads of entry points: registered after every Pipeline block
@@ -1117,6 +1105,74 @@ impl Case {
             s.push_str(&format!("void {}(int p0) {{\n}}\n", e.name));
         }
         s
+    }
+
+    /// the entry point definitions and `Pipeline` blocks in the order the file has them (after the forward
+    /// declarations, the helpers and the s_init globals; before the late overloads)
+    pub fn file_order(&self) -> Vec<Root> {
+        let mut out = Vec::new();
+        if self.layout == 1 {
+            let mut done = vec![false; self.entries.len()];
+            for (i, pipe) in self.pipes.iter().enumerate() {
+                if pipe.before {
+                    out.push(Root::Pipe(i));
+                }
+                for k in &pipe.stages {
+                    if !done[*k] {
+                        done[*k] = true;
+                        out.push(Root::Entry(*k));
+                    }
+                }
+                if !pipe.before {
+                    out.push(Root::Pipe(i));
+                }
+            }
+            for k in 0..self.entries.len() {
+                if !done[k] {
+                    out.push(Root::Entry(k));
+                }
+            }
+        } else {
+            out.extend((0..self.pipes.len()).filter(|i| self.pipes[*i].before).map(Root::Pipe));
+            out.extend((0..self.entries.len()).map(Root::Entry));
+            out.extend((0..self.pipes.len()).filter(|i| !self.pipes[*i].before).map(Root::Pipe));
+        }
+        out
+    }
+
+    /// the function a stage property `<Stage>Shader = <name of entry k>` of pipeline `pi` denotes.  A name is resolved
+    /// where it is written: among the functions the file has declared so far -- every helper, and the entry points
+    /// defined (or forward declared) before the block.  When that is exactly one function with a body, it is the stage's
+    /// function (normally entry `k` itself; a helper of that name when the block stands before the entry point's
+    /// definition); in every other case the file is refused and the answer does not matter (entry `k`).
+    pub fn stage_fn(&self, pi: usize, k: usize) -> StageFn {
+        let name = &self.entries[k].name;
+        let order = self.file_order();
+        let Some(at) = order.iter().position(|r| *r == Root::Pipe(pi)) else { return StageFn::Entry(k) };
+        let mut cands: Vec<StageFn> = (0..self.helpers.len()).filter(|h| &self.helpers[*h].name == name).map(StageFn::Helper).collect();
+        for (e, x) in self.entries.iter().enumerate() {
+            let defined_before = order[..at].contains(&Root::Entry(e));
+            if &x.name == name && (defined_before || x.fd) {
+                if !defined_before {
+                    return StageFn::Entry(k); // declared only: refused
+                }
+                cands.push(StageFn::Entry(e));
+            }
+        }
+        if cands.len() == 1 { cands[0] } else { StageFn::Entry(k) }
+    }
+
+    /// the function behind a stage
+    pub fn stage_xfn(&self, f: StageFn) -> &XFn {
+        match f {
+            StageFn::Entry(k) => &self.entries[k],
+            StageFn::Helper(h) => &self.helpers[h],
+        }
+    }
+
+    /// the functions the stages of pipeline `pi` denote, in property order
+    pub fn stage_fns(&self, pi: usize) -> Vec<StageFn> {
+        self.pipes[pi].stages.iter().map(|k| self.stage_fn(pi, *k)).collect()
     }
 
     /// resources some stage entry point of the pipeline can reach (the request's own use graph: bodies, default
@@ -1128,11 +1184,19 @@ impl Case {
         let mut hstack: Vec<usize> = Vec::new();
         let mut istack: Vec<usize> = Vec::new();
         if let Some(p) = pipe {
+            let pi = self.pipes.iter().position(|q| std::ptr::eq(q, p));
             for k in &p.stages {
-                let e = &self.entries[*k];
-                out.extend(e.uses.iter().map(|u| u.0));
-                hstack.extend(e.calls.iter().copied());
-                istack.extend(e.inits.iter().copied());
+                // the function the property denotes where the block stands (a helper, when the block precedes the
+                // definition of the entry point and a helper has its name)
+                match pi.map(|pi| self.stage_fn(pi, *k)).unwrap_or(StageFn::Entry(*k)) {
+                    StageFn::Entry(e) => {
+                        let e = &self.entries[e];
+                        out.extend(e.uses.iter().map(|u| u.0));
+                        hstack.extend(e.calls.iter().copied());
+                        istack.extend(e.inits.iter().copied());
+                    }
+                    StageFn::Helper(h) => hstack.push(h),
+                }
             }
         }
         loop {
